@@ -27,7 +27,7 @@ for m in sorted(glob.glob(os.path.join(V, "seeded", "*", "meta.json"))):
     d = json.load(open(m))
     seeded.append("| %s | %s | %s | %s | %s |" % (d["name"], d["property"], esc(d.get("needs_to_manifest", ""))[:160],
                                                  ", ".join("%s: %s" % (k, v["verdict"]) for k, v in d.get("checks", {}).items()),
-                                                 esc(d.get("missed_at_first", ""))))
+                                                 esc(d.get("missed_at_first", "") or (("NOT DEMANDED BY THE PROPERTY: " + d["not_demanded_by_property"]) if d.get("not_demanded_by_property") else ""))))
 import ast
 asbuilt = ["| check | monitors (module docstring) | case rule and distinct / non-trivial criteria | cases quick / thorough | REQUIRED monitor counters (else exit 2) |", "|---|---|---|---|---|"]
 for k in range(1, 21):
